@@ -506,7 +506,7 @@ def corner_search_whole_row(prog, rep):
             for n in walk(tr):
                 if isinstance(n, tuple) and n[0] == "call" and n[1].split("::")[-1] in ("next", "next_back", "nth", "nth_back", "find", "rfind", "position", "rposition") and n[3] and n[1].startswith("core::iter"):
                     it = strip_refs(n[3][0])
-                    while it[0] == "call" and it[1].split("::")[-1] in ("into_iter", "by_ref", "clone") and len(it[3]) == 1:
+                    while it[0] == "call" and it[1].split("::")[-1] in ("into_iter", "by_ref", "clone", "rev") and len(it[3]) == 1:
                         it = strip_refs(it[3][0])
                     subjects[it] = n[1].split("::")[-1]
     self_rc = ("field", P(1, "self"), holder)
